@@ -141,6 +141,9 @@ func drawStream(t *rapid.T) cli.StreamDef {
 			sd.Renditions = append(sd.Renditions, r)
 		}
 	}
+	if sd.Multi {
+		sd.MuxedRendition = rapid.IntRange(0, 3).Draw(t, "muxedRendition") == 0
+	}
 	if sd.Container == "mpegts" {
 		sd.BaseTicks = rapid.OneOf(
 			rapid.Int64Range(0, 1<<33-1),
@@ -405,6 +408,9 @@ func execC10(sc c10Scenario) core.Outcome {
 			o.Labels = append(o.Labels, "byte-range-without-offsets")
 		}
 	}
+	if sc.Stream.MuxedRendition && sc.Entry == "multi" {
+		o.Labels = append(o.Labels, "rendition-without-uri")
+	}
 	for _, tr := range sc.Stream.Lead.Tracks {
 		if !cli.SupportedByClient(sc.Stream.Container, tr.Codec) {
 			o.Labels = append(o.Labels, "unsupported-track:"+tr.Codec)
@@ -458,7 +464,7 @@ func reqURLs(rs []cli.ReqLog) []string {
 }
 
 var propC10 = core.Prop[c10Scenario]{
-	ID: "C10",
+	ID: "C10", CrashLog: true,
 	Rule: "synthetic streams built with mediacommon (fMP4 / MPEG-TS, single playlist or multivariant with 0-3 audio renditions of different timescales, 1 video + 0-2 audio in the leading playlist, 3-6 segments x 1-3 fragments x 1-3 samples, base times up to 2^23 s and anywhere on the 33-bit circle incl. wrap, B-frame style PTS offsets, byte-range or whole-file addressing, date-times on all/some/no segments, VOD or live start, extra unsupported MPEG-TS track) served by an in-process transport; " +
 		"oracle: reported tracks, every unit of every downloaded segment delivered byte-identical and in order, dts/pts = container - origin (+-1 tick), nothing negative, AbsoluteTime = date-time anchor + offset, ErrClientEOS; non-trivial = tracks with different clock rates, base >= 2^32, or a 33-bit wrap inside the stream",
 	Draw: drawC10,
